@@ -426,7 +426,14 @@ C09Noisy(v, s, b, js, k, at) ==
                                        mods_d |-> IF "mods_d" \in DOMAIN js[i] THEN js[i].mods_d ELSE NoMods,
                                        patch |-> js[i].patch, trunc |-> js[i].trunc, append |-> js[i].append, tag |-> js[i].label]]]
 Chunks(sq, n) == [k \in 1..((Len(sq) + n - 1) \div n) |-> SubSeq(sq, (k - 1) * n + 1, IF k * n > Len(sq) THEN Len(sq) ELSE k * n)]
+\* a steady stream of packets that must be skipped (4 per millisecond: truncated junk / a time-exceeded about somebody else's flow /
+\* segments of other connections) all through the run - many more than there are polls in a hop's listening time
+C09Flood(v, kind) ==
+    Common(v, TRUE, BaseMid, 1, 4) @@
+    [id |-> "C09/" \o v \o "/flood/" \o kind, twin |-> "C09/" \o v \o "/" \o BaseMid.name \o "/clean", label |-> v \o "/skipped-packet-stream/" \o kind,
+     path |-> Background(v, 1, 4, 4, {3}), flood_n |-> 2, flood_us |-> 500, flood_kind |-> kind]
 C09All(u) ==
+    UNION { { C09Flood(v, k) : k \in {"junk", "te_other", "foreign_tcp"} } : v \in Variants } \cup
     UNION { LET ch == Chunks(SetToSeq(JunkSet(v)), 20) IN
             { C09Clean(v, TRUE, BaseMid) } \cup { C09Noisy(v, TRUE, BaseMid, ch[k], k, at) : k \in DOMAIN ch, at \in {500, 30000, 200000} }
           : v \in Variants }
